@@ -108,6 +108,12 @@ class gre (packet_base):
                      + 'parse header: data len %u' % (dlen,))
             return
 
+        try:
+          self._parse(raw)
+        except struct.error:
+          self.msg('warning GRE packet data too short for its optional fields')
+
+    def _parse(self, raw):
         o = 0
         flags,self.type = struct.unpack("!HH", raw[o:o+4])
         o += 4
